@@ -94,22 +94,82 @@ struct VarWorld
 		else if (shape == 1) { if (alt & 1) d = Var(Var::OBJ); else d = Dic<Var>(); }
 		else if (shape == 2)
 		{
-			if (alt % 3 == 2) { d = (Var(), 1, 2, 3); return; }        // pseudo-literal built with operator,
+			if (alt % 4 == 2) { d = (Var(), 1, 2, 3); return; }        // pseudo-literal built with operator,
+			if (alt % 4 == 3)                                            // C++11 initializer lists
+			{
+				if (alt & 4) d = { 1, 2, 3 }; else if (alt & 8) d = Var::array({ 1, 2, 3 }); else { Var t = { 1, 2, 3 }; d = t; }
+				return;
+			}
 			Array<Var> a;
 			a << Var(1) << Var(2) << Var(3);
 			if (alt & 1) d = Var(a); else d = a;
 		}
 		else
 		{
-			if (alt % 3 == 2)                                            // pseudo-literal built with Var(key, value)(key, value)...
+			if (alt % 4 == 2)                                            // pseudo-literal built with Var(key, value)(key, value)...
 			{
 				d = Var(String(tb.key(1).c_str()), Var(1))(tb.key(2).c_str(), 2)(String(tb.key(3).c_str()), 3);
+				return;
+			}
+			if (alt % 4 == 3)                                            // C++11 initializer list of key-value pairs
+			{
+				const char* k1 = tb.key(1).c_str();
+				const char* k2 = tb.key(2).c_str();
+				const char* k3 = tb.key(3).c_str();
+				if (alt & 4) d = { { k3, 3 }, { k1, 1 }, { k2, 2 } }; else { Var t{ { k1, 1 }, { k2, 2 }, { k3, 3 } }; d = t; }
 				return;
 			}
 			Dic<Var> o;
 			for (int k = 1; k <= 3; k++) o[String(tb.key(k).c_str())] = k;
 			if (alt & 1) d = Var(o); else d = o;
 		}
+	}
+	// Var(Array<T>) / Var(Dic<T>) / var = Array<T> / var = Dic<T>; the element values are the specification's TypedVals
+	template <class T, class G>
+	void typedOf(Var& d, bool arr, int n, G get, int alt) const
+	{
+		if (arr)
+		{
+			Array<T> a;
+			for (int j = 0; j < n; j++) a << get(j);
+			if (alt & 1) d = Var(a); else d = a;
+		}
+		else
+		{
+			Dic<T> o;
+			for (int j = 0; j < n; j++) o[String(tb.key(j + 1).c_str())] = get(j);
+			if (alt & 1) d = Var(o); else d = o;
+		}
+	}
+	struct GetI { const std::vector<int>& v; int operator()(int j) const { return v[(size_t)j]; } };
+	struct GetD { const std::vector<int>& v; double operator()(int j) const { return v[(size_t)j] / 2.0; } };
+	struct GetF { const std::vector<int>& v; float operator()(int j) const { return (float)(v[(size_t)j] / 2.0); } };
+	struct GetB { const std::vector<int>& v; bool operator()(int j) const { return v[(size_t)j] != 0; } };
+	struct GetS { const std::vector<int>& v; const Tables& tb; String operator()(int j) const { return String(tb.str(v[(size_t)j]).c_str()); } };
+	void assignTyped(Var& d, const std::string& kind, const std::string& T, int n, const std::vector<int>& vals, int alt) const
+	{
+		bool arr = kind == "arr";
+		if (T == "int") { GetI g = { vals }; typedOf<int>(d, arr, n, g, alt); }
+		else if (T == "num") { GetD g = { vals }; typedOf<double>(d, arr, n, g, alt); }
+		else if (T == "flt") { GetF g = { vals }; typedOf<float>(d, arr, n, g, alt); }
+		else if (T == "bool") { GetB g = { vals }; typedOf<bool>(d, arr, n, g, alt); }
+		else { GetS g = { vals, tb }; typedOf<String>(d, arr, n, g, alt); }
+	}
+	// Var(Var::Type) / var = Var::Type
+	void assignKind(Var& d, int c, int alt) const
+	{
+		if (alt & 1) d = Var((Var::Type)c); else d = (Var::Type)c;
+	}
+	// the C++ number types that have no entry in the scalar table
+	void assignC(Var& d, const std::string& ct, int n, int alt) const
+	{
+		bool ctor = (alt & 1) != 0;
+		if (ct == "char") { if (ctor) d = Var((char)n); else d = (char)n; }
+		else if (ct == "unsigned") { if (ctor) d = Var((unsigned)n); else d = (unsigned)n; }
+		else if (ct == "long") { if (ctor) d = Var((long)n); else d = (long)n; }
+		else if (ct == "ulong") { if (ctor) d = Var((unsigned long)n); else d = (unsigned long)n; }
+		else if (ct == "Long") { if (ctor) d = Var((Long)n); else d = (Long)n; }
+		else { if (ctor) d = Var((ULong)n); else d = (ULong)n; }
 	}
 };
 
